@@ -6,7 +6,8 @@ Copyright 2020, 2021 William W. Kimball, Jr. MBA MSIS
 from itertools import zip_longest
 from typing import Any, Dict, Generator, List, Optional, Tuple, Union
 
-from ruamel.yaml.comments import CommentedMap, CommentedSeq, CommentedSet
+from ruamel.yaml.comments import (
+    CommentedMap, CommentedSeq, CommentedSet, TaggedScalar)
 
 from yamlpath import YAMLPath
 from yamlpath.wrappers import ConsolePrinter, NodeCoords
@@ -193,7 +194,7 @@ class Differ:
                 rhs_val = self._eyamlproc.decrypt_eyaml(rhs)
                 rhs = rhs.replace("\r", "").replace(" ", "")
 
-        if lhs_val == rhs_val:
+        if Differ._same_data(lhs_val, rhs_val):
             self._diffs.append(
                 DiffEntry(DiffActions.SAME, path, lhs, rhs, **kwargs)
             )
@@ -420,7 +421,7 @@ class Differ:
                     parentref=idx)
             else:
                 diff_action = (DiffActions.SAME
-                               if lele == rele
+                               if Differ._same_data(lele, rele)
                                else DiffActions.CHANGE)
                 self._diffs.append(
                     DiffEntry(
@@ -514,7 +515,7 @@ class Differ:
                     # KEY-based comparisons
                     next_path = path + "[{}]".format(lidx)
                     diff_action = (DiffActions.SAME
-                                  if lele == rele
+                                  if Differ._same_data(lele, rele)
                                   else DiffActions.CHANGE)
                     self._diffs.append(
                         DiffEntry(diff_action, next_path, lele, rele,
@@ -547,6 +548,22 @@ class Differ:
             "Against RHS:",
             prefix="Differ::_diff_lists:  ",
             data=rhs)
+
+        # Check first for a difference in YAML Tag
+        lhs_tag = lhs.tag.value if hasattr(lhs, "tag") else None
+        rhs_tag = rhs.tag.value if hasattr(rhs, "tag") else None
+        if lhs_tag != rhs_tag:
+            self.logger.debug(
+                "Arrays have different YAML Tags; {} != {}:".format(
+                    lhs_tag, rhs_tag),
+                prefix="Differ::_diff_lists:  ")
+            self._diffs.append(
+                DiffEntry(
+                    DiffActions.DELETE, path, lhs, None, key_tag=lhs_tag))
+            self._diffs.append(
+                DiffEntry(
+                    DiffActions.ADD, path, None, rhs, key_tag=rhs_tag))
+            return
 
         parent: Any = kwargs.pop("rhs_parent", None)
         parentref: Any = kwargs.pop("parentref", None)
@@ -751,7 +768,7 @@ class Differ:
             del_index = -1
             for reduced_idx, rhs_pair in enumerate(rhs_reduced):
                 (_, rhs_ele) = rhs_pair
-                if rhs_ele == lhs_ele:
+                if Differ._same_data(rhs_ele, lhs_ele):
                     del_index = reduced_idx
                     break
 
@@ -844,7 +861,7 @@ class Differ:
                     # Impossible to match this RHS record to this LHS record
                     continue
 
-                if rhs_ele[use_key] == lhs_ele[use_key]:
+                if Differ._same_data(rhs_ele[use_key], lhs_ele[use_key]):
                     del_index = reduced_idx
                     break
 
@@ -859,6 +876,41 @@ class Differ:
             syn_pairs.append((None, None, rhs_original_idx, rhs_ele))
 
         return syn_pairs
+
+    @staticmethod
+    def _same_data(lhs: Any, rhs: Any) -> bool:
+        """
+        Indicate whether two nodes hold the same data.
+
+        Python's == is not up to this for YAML data:  a TaggedScalar has no
+        value equality (two loads of `!tag value` are never ==) and the YAML
+        Tag of a Hash or an Array is ignored.  Two nodes hold the same data
+        when they have the same YAML Tag and the same value(s); the order of
+        Hash keys is irrelevant and the order of Array elements is relevant.
+
+        Parameters:
+        1. lhs (Any) The left-hand-side (original) node
+        2. rhs (Any) The right-hand-side (altered) node
+
+        Returns:  (bool) True = same tag and value(s); False, otherwise
+        """
+        lhs_tag = lhs.tag.value if hasattr(lhs, "tag") else None
+        rhs_tag = rhs.tag.value if hasattr(rhs, "tag") else None
+        if lhs_tag != rhs_tag:
+            same = False
+        elif isinstance(lhs, TaggedScalar) and isinstance(rhs, TaggedScalar):
+            same = lhs.value == rhs.value
+        elif isinstance(lhs, CommentedMap) and isinstance(rhs, CommentedMap):
+            same = len(lhs) == len(rhs) and all(
+                key in rhs and Differ._same_data(val, rhs[key])
+                for key, val in lhs.items())
+        elif isinstance(lhs, CommentedSeq) and isinstance(rhs, CommentedSeq):
+            same = len(lhs) == len(rhs) and all(
+                Differ._same_data(lele, rele)
+                for (lele, rele) in zip(lhs, rhs))
+        else:
+            same = bool(lhs == rhs)
+        return same
 
     @classmethod
     def _get_key_indicies(
